@@ -118,12 +118,43 @@ theorem place_result (ns : Array (Option Entry)) (e : Entry) (c0 : Nat) (hn : 0 
   · exact stopAt_false_occ (fun _ _ => false) ns 0 0 _ (walk_lt _ _ _ hhome) (hbefore j hj)
 
 
+theorem skipFrom_eq (slots : Array (Option Entry)) (fuel pos coll : Nat) :
+    skipFrom slots fuel pos coll = (probe (fun _ _ => false) slots 0 0 fuel pos coll).map (fun pc => pc.2) := by
+  induction fuel generalizing pos coll with
+  | zero => simp [skipFrom, probe]
+  | succ f ih =>
+    unfold skipFrom probe
+    cases hv : slots[pos]? with
+    | none => simp
+    | some o =>
+      cases o with
+      | none => simp
+      | some e' => simp [ih]
+
+/-- the walk for an empty old slot ends: there is a free slot -/
+theorem skip_result (ns : Array (Option Entry)) (c0 : Nat) (hn : 0 < ns.size)
+    (hEmpty : ∃ s : Nat, ns[s]? = some none) :
+    ∃ c, skipFrom ns (ns.size + 1) (0 % ns.size) c0 = some (c0 + c) ∧ c < ns.size := by
+  have hhome : 0 % ns.size < ns.size := Nat.mod_lt _ hn
+  obtain ⟨s0, hs0⟩ := hEmpty
+  have hs0lt : s0 < ns.size := by
+    rcases Nat.lt_or_ge s0 ns.size with h | h
+    · exact h
+    · rw [Array.getElem?_eq_none h] at hs0; cases hs0
+  obtain ⟨k, hk, hwk⟩ := walk_cover ns.size (0 % ns.size) s0 hhome hs0lt
+  have hstop : stopAt (fun _ _ => false) ns 0 0 (walk ns.size k (0 % ns.size)) = true := by
+    unfold stopAt; rw [hwk, hs0]
+  obtain ⟨m, hm, _, hsm, hbefore⟩ := probe_finds (fun _ _ => false) ns 0 0 (0 % ns.size) k hhome hk hstop
+  have hpr' := probe_spec (fun _ _ => false) ns 0 0 m (ns.size + 1) (0 % ns.size) c0 hhome (by omega) hsm hbefore
+  exact ⟨m, by rw [skipFrom_eq, hpr']; rfl, by omega⟩
+
 /-- the step function of grow's fold -/
 def growStep (newLen : Nat) (acc : Option (Array (Option Entry) × Nat)) (s : Option Entry) :
     Option (Array (Option Entry) × Nat) :=
   match acc, s with
   | some (ns, c), some e => placeFrom ns e (newLen + 1) (e.hash % newLen) c
-  | acc, _ => acc
+  | some (ns, c), none => (skipFrom ns (newLen + 1) (0 % newLen) c).map fun c' => (ns, c')
+  | none, _ => none
 
 /-- invariant of the rehash fold after the prefix `l₁` of the old slots has been processed -/
 structure RI (N : Nat) (ns : Array (Option Entry)) (l₁ : List (Option Entry)) : Prop where
@@ -140,7 +171,12 @@ theorem RI_step (N : Nat) (hN : 0 < N) (ns : Array (Option Entry)) (l₁ : List 
     ∃ ns' c', growStep N (some (ns, c)) x = some (ns', c') ∧ RI N ns' (l₁ ++ [x]) := by
   cases x with
   | none =>
-    refine ⟨ns, c, rfl, ⟨ri.size, ri.reach, fun s e h => List.mem_append_left _ (ri.sub s e h), ?_, ri.inj, ?_⟩⟩
+    have hcount : countOcc ns < ns.size := by
+      rw [ri.cnt, ri.size]
+      exact Nat.lt_of_le_of_lt (List.length_filter_le _ _) hlen
+    obtain ⟨k, hsk, _⟩ := skip_result ns c (by rw [ri.size]; exact hN) (exists_empty_of_count ns hcount)
+    refine ⟨ns, c + k, by simp only [growStep]; rw [← ri.size, hsk]; rfl,
+      ⟨ri.size, ri.reach, fun s e h => List.mem_append_left _ (ri.sub s e h), ?_, ri.inj, ?_⟩⟩
     · intro e he
       rcases List.mem_append.mp he with h | h
       · exact ri.sup e h
